@@ -677,6 +677,17 @@ impl Version {
 
     /// Returns a reference to the digest associated to a logical path, or None if the logical
     /// path does not exist in the version's state.
+    /// Returns true if the other version has the same metadata and the same state
+    pub fn same_as(&self, other: &Version) -> bool {
+        self.created == other.created
+            && self.message == other.message
+            && self.user == other.user
+            && self.state.len() == other.state.len()
+            && self
+                .state_iter()
+                .all(|(path, digest)| other.lookup_digest(path) == Some(digest))
+    }
+
     pub fn lookup_digest(&self, logical_path: &LogicalPath) -> Option<&Rc<HexDigest>> {
         self.state.get_id(logical_path)
     }
